@@ -368,7 +368,7 @@ func (vc *VC) typingFact(tm *Term) string {
 				return "(>= " + tm.S + " 0)"
 			}
 			if vc.mode == "bv" {
-				return vc.le(vc.intLit(0, 64), "(str-len "+tm.S+")", true)
+				return and(vc.le(vc.intLit(0, 64), "(str-len "+tm.S+")", true), vc.le("(str-len "+tm.S+")", vc.bigLit(big.NewInt(281474976710656), 64), true))
 			}
 			// Go's runtime cannot allocate objects larger than 2^48 bytes (maxAlloc, 64-bit platforms)
 			return "(and (<= 0 (str-len " + tm.S + ")) (<= (str-len " + tm.S + ") 281474976710656) (<= 0 (str-off " + tm.S + ")))"
@@ -383,6 +383,12 @@ func (vc *VC) typingFact(tm *Term) string {
 				sz = 1
 			}
 			ub = "(<= (s-cap " + tm.S + ") " + new(big.Int).Div(big.NewInt(281474976710656), big.NewInt(sz)).String() + ")"
+		} else {
+			sz := types.SizesFor("gc", "amd64").Sizeof(u.Elem())
+			if sz < 1 {
+				sz = 1
+			}
+			ub = vc.le("(s-cap "+tm.S+")", vc.bigLit(new(big.Int).Div(big.NewInt(281474976710656), big.NewInt(sz)), 64), true)
 		}
 		return fmt.Sprintf("(and %s %s %s %s (>= (rid (s-ref %s)) 0))", vc.le(z, "(s-off "+tm.S+")", true), vc.le(z, "(s-len "+tm.S+")", true),
 			vc.le("(s-len "+tm.S+")", "(s-cap "+tm.S+")", true), ub, tm.S)
